@@ -68,6 +68,14 @@ pub enum LRes {
 }
 
 pub fn lol_tokens(input: &[u8], cuts: &[usize], flags: TokenCaptureFlags, strict: bool) -> LRes {
+    lol_tokens_enc(input, cuts, flags, strict, encoding_rs::UTF_8)
+}
+
+pub fn merge_text_pub(v: Vec<HTok>) -> Vec<HTok> {
+    merge_text(v)
+}
+
+pub fn lol_tokens_enc(input: &[u8], cuts: &[usize], flags: TokenCaptureFlags, strict: bool, enc: &'static encoding_rs::Encoding) -> LRes {
     let toks = Rc::new(RefCell::new(Vec::new()));
     let out = Rc::new(RefCell::new(Vec::new()));
     let out2 = out.clone();
@@ -77,7 +85,7 @@ pub fn lol_tokens(input: &[u8], cuts: &[usize], flags: TokenCaptureFlags, strict
             output_sink: move |c: &[u8]| out2.borrow_mut().extend_from_slice(c),
             preallocated_parsing_buffer_size: 0,
             memory_limiter: SharedMemoryLimiter::new(usize::MAX),
-            encoding: lol_html::AsciiCompatibleEncoding::utf_8(),
+            encoding: lol_html::AsciiCompatibleEncoding::new(enc).expect("ascii compatible"),
             next_encoding: Default::default(),
             strict,
             graceful_bail_out_on_memory_limit_exceeded: false,
